@@ -59,7 +59,16 @@ def naming_space(tier):
     # clock drivers built with / without their optional clock wire, on a sub-block and on the system itself
     for v in ('sub_wire', 'sub_nowire', 'top_nowire', 'sub_nowire_gated', 'two_subs_nowire'):
         out.append(('clkdrv', v))
+    # structural blocks whose ports are created from an Interface (forward signals and a back channel)
+    for v in ('named', 'unnamed'):
+        out.append(('iface', v))
     return out
+
+
+def z_bit(parent, z):
+    b = parent.wire('zb')
+    py4hw.Bit(parent, 'zbit', z, 0, b)
+    return b
 
 
 def build_naming(g):
@@ -75,6 +84,26 @@ def build_naming(g):
         py4hw.And2(W, 'g0', x, y, lw)
         py4hw.Reg(W, c0, lw, z)
         return hw, ['w_x', 'w_y']
+    if g[0] == 'iface':
+        x = hw.wire('x')
+        itf = py4hw.Interface(hw, 'ch')
+        data, valid = itf.addSourceToSink('data', 2), itf.addSourceToSink('valid', 1)
+        ready = itf.addSinkToSource('ready', 1)
+        pfx = ('m', 's') if g[1] == 'named' else ('', '')
+        P = Logic(hw, 'prod')
+        P.addIn('x', x)
+        P.addInterfaceSource(pfx[0], itf)
+        py4hw.Constant(P, 'kd', 3, data)
+        py4hw.And2(P, 'av', x, ready, valid)
+        C = Logic(hw, 'cons')
+        C.addInterfaceSink(pfx[1], itf)
+        z = hw.wire('z', 2)
+        C.addOut('z', z)
+        rq = C.wire('rq')
+        py4hw.Reg(C, 'r', data, z, enable=valid)
+        py4hw.Reg(C, 'rr', z_bit(C, z), rq)
+        py4hw.Not(C, 'n', rq, ready)
+        return hw, ['w_x']
     if g[0] == 'clkdrv':
         v = g[1]
         x, z, z2 = hw.wire('x'), hw.wire('z'), hw.wire('z2')
